@@ -1153,27 +1153,54 @@ an index, the end fixed at construction, a node pointer) alive while `(*this)[x]
 `HashMap.selfMerge` transcribes this interleaving (node pointer = key, `p->next` and `*e` re-read from the current
 table with checked reads); the driver's `addself` on sets runs it. -/
 
-/-- the full claim: for every well-formed set table, growth inside the enumeration included -/
+/-- the full claim: for EVERY well-formed set table, also over-full ones (filled while a second handle suppressed growth)
+that grow several times inside one enumeration — there the interleaved run and enumerate-then-insert may end with
+different table sizes; compared by K only -/
 def self_merge_interleaved_full : Prop :=
   ∀ (K : Type) [DecidableEq K] (h : K → Nat) (s : HashMap.HSet K), Inv h s → (∀ kv ∈ HashMap.enum s, kv.2 = 1) →
     ∃ s', HashMap.selfMerge h s = some s' ∧ Inv h s' ∧ ∀ x, HashMap.has h s' x = HashMap.has h s x
 
-/-- **`s << s` as coded on a table that is not due to grow** (any hash function, any collision pattern, any size):
-the interleaved enumeration reads only inside the array, never follows a null or dangling node, terminates, and leaves
-the table exactly as it was — which is also what the enumerate-then-insert reading `sAddAll h s s` gives -/
+/-- **`s << s` as coded, for every set table within the intended load** (`LoadOK`: what `hashmap_load_bound_unshared`
+gives after every history without shared handles), any hash function, any collision pattern, any size — growth INSIDE
+the enumeration included: when the first `(*this)[x]` rebuilds the table, the enumerator goes on in the new array with
+its old end and the re-linked node.  The interleaved enumeration reads only inside the array, never follows a null or
+dangling node, terminates, and leaves exactly `rehash()` of the table: same members, same count, well-formed -/
 theorem self_merge_interleaved_partial {K : Type} [DecidableEq K] {h : K → Nat} {s : HashMap.HSet K} (inv : Inv h s)
+    (ones : ∀ kv ∈ HashMap.enum s, kv.2 = 1) (l : AslProofs.HashMapEnum.LoadOK s) :
+    HashMap.selfMerge h s = some (HashMap.rehash h s) ∧ Inv h (HashMap.rehash h s) ∧
+      (HashMap.rehash h s).n = s.n ∧ ∀ x, HashMap.has h (HashMap.rehash h s) x = HashMap.has h s x := by
+  obtain ⟨inv1, habs⟩ := AslProofs.HashMap.rehash_spec inv
+  refine ⟨AslProofs.HashMapSelf.selfMerge_loaded inv ones l, inv1, ?_, ?_⟩
+  · rcases AslProofs.HashMapEnum.rehash_cases h s with ⟨e, _⟩ | ⟨_, e, _⟩
+    · rw [e]
+    · exact e
+  · intro x
+    rw [AslProofs.HashMap.has_eq_abs inv1.wf, AslProofs.HashMap.has_eq_abs inv.wf, habs]
+
+/-- **`s << s` as coded on a table that is not due to grow**, whatever its load (also over-full tables whose growth is
+suppressed because a second handle shares them): table unchanged, which is also what enumerate-then-insert gives -/
+theorem self_merge_interleaved_no_growth {K : Type} [DecidableEq K] {h : K → Nat} {s : HashMap.HSet K} (inv : Inv h s)
     (ones : ∀ kv ∈ HashMap.enum s, kv.2 = 1) (hr : HashMap.rehash h s = s) :
     HashMap.selfMerge h s = some s ∧ HashMap.sAddAll h s s = s :=
   ⟨AslProofs.HashMapSelf.selfMerge_no_growth inv hr ones, AslProofs.HashMapSelf.sAddAll_self_no_growth inv hr ones⟩
 
+/-- the hypotheses of `self_merge_interleaved_partial` are met by a 2-bucket `Set<int>` holding {2, 4, 7}: 3 members =
+the threshold 4*7/8, so the first `(*this)[x]` of `s << s` grows it to 16 buckets -/
+example : let s := [2, 4, 7].foldl (HashMap.sIns HashMap.hashInt) (HashMap.empty 2)
+    Inv HashMap.hashInt s ∧ (∀ kv ∈ HashMap.enum s, kv.2 = 1) ∧ AslProofs.HashMapEnum.LoadOK s ∧
+    (HashMap.rehash HashMap.hashInt s).buckets.length = 16 := by
+  refine ⟨?_, by decide, Or.inl (by decide), by decide⟩
+  exact (AslProofs.HashMap.sIns_spec (AslProofs.HashMap.sIns_spec (AslProofs.HashMap.sIns_spec
+    (AslProofs.HashMap.empty_inv HashMap.hashInt (by decide)).1 2).1 4).1 7).1
+
 /-- a `Set<int>` table of 4 buckets with colliding members {1, 5, 9} (below the threshold 6*7/8 = 5) -/
 def stbl : HashMap.HSet Int := [1, 5, 9].foldl (HashMap.sIns HashMap.hashInt) (HashMap.empty 4)
 
-/-- the hypotheses of `self_merge_interleaved_partial` are met by a table with a 3-node chain -/
+/-- the hypotheses of `self_merge_interleaved_no_growth` are met by a table with a 3-node chain -/
 example : (HashMap.rehash HashMap.hashInt stbl).buckets = stbl.buckets ∧ HashMap.enum stbl = [(1, 1), (5, 1), (9, 1)] ∧
     (HashMap.selfMerge HashMap.hashInt stbl).map (fun t => (t.buckets, t.n)) = some (stbl.buckets, 3) := by decide
 
-/-- growth INSIDE the enumeration (not covered by the theorem, compared by K): 2 buckets, 3 members = the threshold
+/-- growth INSIDE the enumeration, evaluated: 2 buckets, 3 members = the threshold
 4*7/8; the first `(*this)[x]` rebuilds the table with 16 buckets, the enumerator goes on in the new array up to its old
 end; the result is the rehashed table, as for enumerate-then-insert -/
 example : (Gen.HashMap.growNum, Gen.HashMap.growDen, Gen.HashMap.growFactor) = (7, 8, 8) →
